@@ -19,9 +19,12 @@ What is compared (only uniquely defined quantities, tolerance bcc.oracle_lp.clos
   the vertex the solver happens to return and are not uniquely defined), find_blocked_reactions, find_essential_genes /
   find_essential_reactions, single_/double_ gene_/reaction_deletion (fba; linear moma on small models, where only rows
   whose MOMA optimum fixes the objective — decided by the exact LP — and the status are compared).
-  Sampling: OptGPSampler with processes in {1, 2}: documented number of rows (smallest multiple of `processes` >= n),
-  S v = 0 and bounds within 1e-6, and two fresh samplers with the same seed and process count return bit-for-bit the same
-  frames (two consecutive batches, different injected delays).
+  Sampling: OptGPSampler with processes in {1, 2, 3, 4}: SEVERAL successive sample() / batch() calls on the same seeded
+  sampler (3-5 calls, sizes mostly not multiples of the process count, so that state carried from call to call — running
+  centre, sample counter — is exercised): no call raises (unless the same sequence with processes=1 raises too, i.e. the
+  model itself is beyond the sampler), every call returns the documented number of rows (smallest multiple of `processes`
+  >= n), every row satisfies S v = 0 and the bounds within 1e-6, and two fresh samplers with the same seed and process
+  count return bit-for-bit the same frames over the whole sequence (different injected delays).
 Models: seeded small networks (bcc.c06_models, finite bounds, feasible wild type) and the shipped `textbook` model.
 """
 import functools
@@ -405,61 +408,101 @@ def _pfba_unique(spec):
 # ----------------------------------------------------------------------------------------------------------------------
 # sampling
 # ----------------------------------------------------------------------------------------------------------------------
+def _seq_label(seq):
+    return " ; ".join(f"sample({st[1]})" if st[0] == "s" else f"batch({st[1]}, {st[2]})" for st in seq)
+
+
+def _run_sampler(ref, seed, processes, seq, thinning, delay_seed):
+    """one fresh seeded sampler, the whole call sequence -> (frames [(requested n, DataFrame)], error text | None, model)"""
+    from cobra.sampling import OptGPSampler
+    model = get_model(ref)
+    frames = []
+    try:
+        with delays(delay_seed, 4.0):
+            s = OptGPSampler(model, processes=processes, thinning=thinning, seed=seed % 1000)
+            for st in seq:
+                if st[0] == "s":
+                    frames.append((st[1], s.sample(st[1])))
+                else:
+                    for df in s.batch(st[1], st[2]):
+                        frames.append((st[1], df))
+    except Exception as e:  # noqa
+        return frames, f"call #{len(frames) + 1} raised {e!r}"[:260], model
+    return frames, None, model
+
+
 def sampling_task(args):
-    ref, seed, processes, n, thinning = args
+    """args: (model ref, seed, processes, seq, thinning); seq = [["s", n] | ["b", batch_size, batch_num], ...] — SEVERAL
+    successive calls on the SAME sampler (the running centre and sample counter carry over from call to call)"""
+    ref, seed, processes, seq, thinning = args
+    if isinstance(seq, int):  # old replay payloads
+        seq = [["s", seq], ["s", seq + 1]]
     _quiet()
     import numpy as np
-    from cobra.sampling import OptGPSampler
     fails = []
-    frames = []
-    label = f"OptGPSampler(processes={processes}, seed={seed % 1000}, thinning={thinning}).sample({n})"
-    for rep in range(2):
-        model = get_model(ref)
-        try:
-            with delays(seed * 7 + rep, 4.0):
-                s = OptGPSampler(model, processes=processes, thinning=thinning, seed=seed % 1000)
-                a = s.sample(n)
-                b = s.sample(n + 1)
-        except Exception as e:  # noqa
-            frames.append(("raises", repr(e)))
+    label = f"OptGPSampler(processes={processes}, seed={seed % 1000}, thinning={thinning}): {_seq_label(seq)}"
+    var = {"seed": seed, "processes": processes, "seq": seq, "thinning": thinning}
+    runs = [_run_sampler(ref, seed, processes, seq, thinning, seed * 7 + rep) for rep in range(2)]
+    n_runs = 2
+    (f1, e1, model), (f2, e2, _) = runs
+    # ---- no exception (unless the single-process sampler cannot handle this model / sequence either)
+    if e1 is not None or e2 is not None:
+        if (e1 is None) != (e2 is None) or len(f1) != len(f2):
+            fails.append(("sampling:reproducible", f"{label}: two identical runs ended differently: {e1} / {e2}"))
+        elif processes > 1:
+            _, e0, _ = _run_sampler(ref, seed, 1, seq, thinning, None)
+            n_runs += 1
+            if e0 is None:
+                fails.append(("sampling:raises", f"{label}: {e1} (after {len(f1)} successful calls); the same sequence "
+                                                 f"with processes=1 works"))
+    # ---- every returned frame: documented row count, S v = 0, bounds
+    S = np.zeros((len(model.metabolites), len(model.reactions)))
+    for j, r in enumerate(model.reactions):
+        for m_, c in r.metabolites.items():
+            S[model.metabolites.index(m_), j] = c
+    lb = np.array([r.lower_bound for r in model.reactions])
+    ub = np.array([r.upper_bound for r in model.reactions])
+    rows = 0
+    for k, (nn, df) in enumerate(f1):
+        which = f"call #{k + 1} (n={nn})"
+        want = int(math.ceil(nn / processes)) * processes
+        if len(df) != want or list(df.columns) != [r.id for r in model.reactions]:
+            fails.append(("sampling:shape", f"{label}: {which} returned {len(df)} rows, documented {want} (smallest multiple "
+                                            f"of processes >= {nn})"))
+        v = df.values
+        rows += len(df)
+        if not v.size:
             continue
-        frames.append((a, b))
-        if rep == 0:
-            S = np.zeros((len(model.metabolites), len(model.reactions)))
-            for j, r in enumerate(model.reactions):
-                for m_, c in r.metabolites.items():
-                    S[model.metabolites.index(m_), j] = c
-            lb = np.array([r.lower_bound for r in model.reactions])
-            ub = np.array([r.upper_bound for r in model.reactions])
-            for which, df, nn in (("first", a, n), ("second", b, n + 1)):
-                want = int(math.ceil(nn / processes)) * processes
-                if len(df) != want or list(df.columns) != [r.id for r in model.reactions]:
-                    fails.append(("sampling:shape", f"{label}: {which} batch has {len(df)} rows, documented "
-                                                    f"{want} (smallest multiple of processes >= {nn})"))
-                v = df.values
-                scale = max(1.0, float(np.abs(v).max())) if v.size else 1.0
-                res = np.abs(S.dot(v.T)).max() if v.size else 0.0
-                if not np.isfinite(v).all() or res > 1e-6 * scale:
-                    fails.append(("sampling:steady-state", f"{label}: {which} batch violates S v = 0 by {res}"))
-                viol = max(float((lb - v).max()), float((v - ub).max())) if v.size else 0.0
-                if viol > 1e-6 * scale:
-                    fails.append(("sampling:bounds", f"{label}: {which} batch violates the bounds by {viol}"))
-    raised = [isinstance(f[0], str) for f in frames]
-    if any(raised):
-        if raised[0] != raised[1]:
-            fails.append(("sampling:reproducible", f"{label}: one of two identical runs raised: {frames}"[:300]))
-        # both runs raise alike (e.g. 'Cannot escape sampling region' on a degenerate flux space): nothing to compare
-        return 2, 0, [_mk(ref, "sampling", {"seed": seed, "processes": processes, "n": n, "thinning": thinning}, k, t)
-                      for k, t in fails], None
-    (a1, b1), (a2, b2) = frames
-    if not (a1.values.tobytes() == a2.values.tobytes() and b1.values.tobytes() == b2.values.tobytes()):
-        d = float(np.abs(a1.values - a2.values).max()) if a1.shape == a2.shape else "shape"
-        fails.append(("sampling:reproducible", f"{label}: two fresh samplers with the same seed and process count "
-                                               f"returned different samples (max difference in the first batch {d})"))
-    sample = {"model": "textbook" if ref == "textbook" else "small", "analysis": "sampling", "processes": processes, "n": n,
-              "rows": [len(a1), len(b1)]}
-    return 2, len(a1) + len(b1), [_mk(ref, "sampling", {"seed": seed, "processes": processes, "n": n, "thinning": thinning},
-                                      k, t) for k, t in fails], sample
+        scale = max(1.0, float(np.abs(v).max()))
+        res = float(np.abs(S.dot(v.T)).max())
+        if not np.isfinite(v).all() or res > 1e-6 * scale:
+            fails.append(("sampling:steady-state", f"{label}: {which} violates S v = 0 by {res}"))
+        viol = max(float((lb - v).max()), float((v - ub).max()))
+        if viol > 1e-6 * scale:
+            fails.append(("sampling:bounds", f"{label}: {which} violates the bounds by {viol}"))
+    # ---- reproducible over the whole sequence
+    for k, ((_, a), (_, b)) in enumerate(zip(f1, f2)):
+        if a.shape != b.shape or a.values.tobytes() != b.values.tobytes():
+            d = float(np.abs(a.values - b.values).max()) if a.shape == b.shape else "shape"
+            fails.append(("sampling:reproducible", f"{label}: two fresh samplers with the same seed and process count differ "
+                                                   f"in call #{k + 1} (max difference {d})"))
+            break
+    sample = {"model": "textbook" if ref == "textbook" else "small", "analysis": "sampling", "processes": processes,
+              "sequence": _seq_label(seq), "rows": [len(df) for _, df in f1], "skipped": e1} if True else None
+    return n_runs, rows, [_mk(ref, "sampling", var, k, t) for k, t in fails], sample
+
+
+def make_seq(rng, processes, n_calls):
+    """call sequence whose sizes are mostly NOT multiples of the process count"""
+    sizes = [n for n in (2, 3, 4, 5, 7, 10) if n % processes] or [3, 5]
+    seq = []
+    for k in range(n_calls):
+        n = rng.choice(sizes) if k != 2 else rng.choice([processes, 2 * processes])  # one exact multiple in between
+        if k == 1:
+            seq.append(["b", n, 2])
+        else:
+            seq.append(["s", n])
+    return seq
 
 
 def _dispatch(task):
@@ -497,15 +540,18 @@ def run(tier, seed):
         for fn in SMALL_FNS:
             tasks.append(("group", (spec, fn, rng.randrange(10 ** 9), 4 if quick else 8, 99)))
         if i < (6 if quick else 40):
-            tasks.append(("sampling", (spec, rng.randrange(10 ** 6), 1 + i % 2, rng.choice([3, 5, 7]), 3)))
-            tasks.append(("sampling", (spec, rng.randrange(10 ** 6), 2, rng.choice([3, 5, 8]), 2)))
+            for p in ([2, 3], [4, 2], [3, 4])[i % 3]:
+                tasks.append(("sampling", (spec, rng.randrange(10 ** 6), p, make_seq(rng, p, 4), rng.choice([2, 3]))))
+            if i % 3 == 0:
+                tasks.append(("sampling", (spec, rng.randrange(10 ** 6), 1, make_seq(rng, 1, 3), 3)))
     tb = [("fva", 3, 4), ("fva90", 2, 2), ("fva_pf", 1, 1), ("blocked", 2, 3), ("blocked_open", 1, 0), ("essential_genes", 2, 0),
           ("essential_reactions", 2, 0), ("single_gene", 3, 5), ("single_reaction", 2, 4), ("double_gene", 2, 2),
           ("double_reaction", 2, 2)]
     for fn, nv, ns in tb:
         tasks.append(("group", ("textbook", fn, rng.randrange(10 ** 9), nv if quick else nv * 4, ns if quick else ns * 4)))
-    tasks.append(("sampling", ("textbook", rng.randrange(10 ** 6), 2, 5, 3)))
-    tasks.append(("sampling", ("textbook", rng.randrange(10 ** 6), 1, 4, 3)))
+    for p, seq in ((2, [["s", 5], ["b", 3, 2], ["s", 4], ["s", 7]]), (3, [["s", 4], ["b", 5, 2], ["s", 3], ["s", 10]]),
+                   (4, [["s", 10], ["b", 3, 2], ["s", 4]]), (1, [["s", 4], ["b", 3, 2]])):
+        tasks.append(("sampling", ("textbook", rng.randrange(10 ** 6), p, seq, 3)))
     # heavy tasks first
     tasks.sort(key=lambda t: 0 if t[1][0] == "textbook" else 1)
     get_model("textbook")  # loaded once, inherited by the workers
@@ -532,6 +578,7 @@ def run(tier, seed):
     return {
         "evaluations": runs,
         "distinct_nontrivial": par + sum(2 for t in tasks if t[0] == "sampling" and t[1][2] > 1),
+        "sampler_calls": sum(2 * sum(1 if st[0] == "s" else st[2] for st in t[1][3]) for t in tasks if t[0] == "sampling"),
         "rule": "evaluation = one call of an analysis (baseline, parallel variant, single-item call, or one sampler "
                 "construction + two batches); non-trivial = calls that really ran in a worker pool (processes > 1 and more "
                 "than one item) under a seeded shuffle / partial list / delay seed — all distinct by construction "
@@ -552,7 +599,7 @@ def replay(payload):
         return None
     want = payload.get("key")
     if fn == "sampling":
-        _, _, fails, _ = sampling_task((ref, var["seed"], var["processes"], var["n"], var["thinning"]))
+        _, _, fails, _ = sampling_task((ref, var["seed"], var["processes"], var.get("seq", var.get("n")), var["thinning"]))
         for f in fails:
             if want is None or f["key"] == want:
                 return f["failure"]
